@@ -7,7 +7,7 @@ Ops (one answer line each; strings percent-encoded):
   L1  fmt m=<method> url=<url>                      -> <expression>            (HaproxyEndpointFormat)
   L2  re e=<expression> s=<subject>                 -> match | nomatch | err:syntax | unsupported
   L3  mode flows|policy                             -> ok
-      flow name=<n> url=<url> methods=<a,b|->       -> ok | err | dead                 (FilterTree.AddFlow)
+      flow name=<n> url=<url> methods=<a,b|-> [expr=1] -> ok | err | dead                 (FilterTree.AddFlow)
       policy name=<n> m=<method> url=<url> (on=<0|1> | r=<0|1,…|-> d=<0|1,…|->) -> ok   (remedies / diagnoses)
       global on=<0|1>                               -> ok
       build                                         -> ma=<0|1> n=<k> eps=<e1;e2;…|-> | err | dead
@@ -146,7 +146,7 @@ def runStep (s : RunSt) (line : String) : RunSt × String :=
       if s.mode != 1 then (s, "bad-op")
       else if s.dead then (s, "dead")
       else
-        let f : Flow := ⟨n, pctDec u, parseMethods ms⟩
+        let f : Flow := ⟨n, pctDec u, parseMethods ms, kv ws "expr" == some "1"⟩
         match addFlow s.ft f with
         | .ok ft => ({ s with ft := ft, flows := s.flows ++ [f] }, "ok")
         | .err => ({ s with dead := true }, "err")
